@@ -6,7 +6,7 @@
        OpCharRange) — [lex_body], [parse_items], [parse_class];
    (2) literal runs:  text made of characters, escapes and `{n,m}`  ->  tokens — [lex_lits]
        (where `{`, digits, `,`, `}` and octal digits change meaning with their neighbours).
-   Non-ASCII bytes, \x \p \Q escapes and the operators are outside this sub-language ([None]).
+   \x \p \Q escapes, escaped non-ASCII runes and the operators are outside this sub-language ([None]).
    No proofs here. *)
 From GC Require Import Base Model_Regex Model_RegexSimplify.
 Local Open Scope string_scope.
@@ -26,6 +26,15 @@ Definition b_of (a : ascii) : N := N_of_ascii a.
 Definition is_oct (b : N) : bool := ((48 <=? b) && (b <=? 55))%N.
 Definition is_dig (b : N) : bool := ((48 <=? b) && (b <=? 57))%N.
 Definition s1 (a : ascii) : string := String a EmptyString.
+
+(* utf8.DecodeRuneInString on well-formed text: the size is read off the lead byte; [None] for a continuation byte as
+   lead or a truncated sequence (patterns are valid UTF-8) *)
+Definition utf8_take (a : ascii) (r : string) : option (string * string) :=
+  let b := b_of a in
+  let n := if (b <? 192)%N then 0%nat else if (b <? 224)%N then 1%nat else if (b <? 240)%N then 2%nat else 3%nat in
+  if Nat.eqb n 0 then None
+  else if Nat.ltb (String.length r) n then None
+  else Some (String a (substring 0 n r), drop n r).
 
 (* reMetachar / charClassMetachar *)
 Definition re_meta (b : N) : bool :=
@@ -83,7 +92,8 @@ Fixpoint lex_body (fuel : nat) (s : string) : option (list tok * string) :=
           let b := b_of a in
           let cons_tok (t : tok) (rest : string) :=
             match lex_body f rest with Some (ts, out) => Some (t :: ts, out) | None => None end in
-          if (128 <=? b)%N then None
+          if (128 <=? b)%N then
+            match utf8_take a r with Some (v, rest) => cons_tok (TChar v) rest | None => None end
           else if (b =? 92)%N then
             match lex_escape true s with Some (t, rest) => cons_tok t rest | None => None end
           else if (b =? 91)%N then
@@ -210,7 +220,8 @@ Fixpoint lex_lits (fuel : nat) (s : string) : option (list tok) :=
           let b := b_of a in
           let cons_tok (t : tok) (rest : string) :=
             match lex_lits f rest with Some ts => Some (t :: ts) | None => None end in
-          if (128 <=? b)%N then None
+          if (128 <=? b)%N then
+            match utf8_take a r with Some (v, rest) => cons_tok (TChar v) rest | None => None end
           else if (b =? 92)%N then
             match lex_escape false s with Some (t, rest) => cons_tok t rest | None => None end
           else if (b =? 123)%N then
